@@ -19,7 +19,7 @@ def outcome(f):
     try:
         with contextlib.redirect_stdout(io.StringIO()), contextlib.redirect_stderr(io.StringIO()):
             r = f()
-        return 'ok' if r is None else 'ok:' + str(r)[:120]
+        return 'ok' if r is None else 'ok:' + (str(r) if len(str(r)) < 124 else str(r)[:100] + '...' + str(len(str(r))) + ':' + str(sum(map(ord, str(r)))))
     except Exception as e:
         return type(e).__name__
 
@@ -65,10 +65,47 @@ if mode == 'after':
     for n, key, v, alt in plan:
         e = fresh(getattr(XE, n))
         outcome(lambda: setattr(e, key, v))
+    # ... and operations on OTHER instances that fail half-way and are survived by the caller (as a batch exporter would):
+    class NotAnElement:
+        pass
+    class BadStr:
+        def __str__(self):
+            raise RuntimeError('str() of a value fails')
+    def failing_history():
+        m = XE.XMLMeasure(number='1', xsd_check=False)
+        m.add_child(XE.XMLNote(xsd_check=False))
+        m.add_child(NotAnElement())                      # unchecked elements accept anything; serialisation fails in the middle of the children
+        outcome(m.to_string)
+        w = XE.XMLWords('x', xsd_check=False)
+        w._attributes['color'] = BadStr()
+        p = XE.XMLDirectionType(xsd_check=False)
+        p.add_child(XE.XMLWords('a')); p.add_child(w)
+        outcome(p.to_string)
+        outcome(XE.XMLPitch().to_string)                 # a refused final check
+        n_ = XE.XMLNote()
+        outcome(lambda: n_.add_child(XE.XMLPartName('x')))   # a rejected child
+        outcome(lambda: XE.XMLStaff('not a number'))         # a refused value
+        import copy
+        outcome(lambda: copy.deepcopy(m))
+    for _ in range(3):
+        failing_history()
 out = []
 for n, key, v, alt in plan:
     e = fresh(getattr(XE, n))
     o1 = outcome(lambda: setattr(e, key, alt))
     o2 = outcome(lambda: e.to_string() if o1.startswith('ok') else None)
     out.append([n, key, repr(v), repr(alt), o1, dict(e.attributes).get(key.replace('_', '-')) is not None, o2])
+# fresh elements WITH children (three levels), serialised: text, indentation and all must not depend on what happened before
+def nested_probes():
+    pl = XE.XMLPartList()
+    sp = pl.add_child(XE.XMLScorePart(id='P1'))
+    sp.add_child(XE.XMLPartName('Flute'))
+    pi = XE.XMLPitch(); pi.add_child(XE.XMLStep('C')); pi.add_child(XE.XMLOctave(4))
+    nt = XE.XMLNote(); nt.add_child(pi); nt.add_child(XE.XMLDuration(1))
+    ms = XE.XMLMeasure(number='1'); ms.add_child(nt)
+    import copy
+    return [('part-list', pl), ('note', nt), ('measure', ms), ('copy of measure', copy.deepcopy(ms)), ('pitch inside note', pi)]
+for name, e in nested_probes():
+    o = outcome(e.to_string)
+    out.append(['<nested>', name, '', '', 'ok', True, o if len(o) < 130 else o[:100] + '...' + str(len(o)) + ':' + str(sum(map(ord, o)))])
 json.dump(out, sys.stdout)
